@@ -1134,6 +1134,51 @@ Lemma types_refuted_lemma :
     = RStuck (KType "push_back on non-vector _a").
 Proof. vm_compute. repeat split. Qed.
 
+(* ---------- vector element types ---------- *)
+(* what the push rule accepts: when the target and the pushed variable are both declared vector types, the pushed
+   variable's declared type IS the target's element type *)
+Lemma vt_push_spec_lemma : forall G M x y tx ty,
+  vt_push G M x (CVar y) = [] -> var_vtype G M x = Some tx -> var_vtype G M y = Some ty ->
+  vec_elem tx = Some ty.
+Proof.
+  intros G M x y tx ty H Hx Hy. unfold vt_push, pushed_vtype in H. rewrite Hx, Hy in H.
+  assert (Hv : is_vector_type tx = true).
+  { unfold var_vtype in Hx. destruct (slookup x G M) as [[t c]|]; [|discriminate].
+    cbv zeta in Hx. destruct (is_vector_type (nospace t)) eqn:E; [|discriminate]. injection Hx as <-. exact E. }
+  unfold vec_elem in *. rewrite Hv in *.
+  destruct (String.eqb (substring 12 (String.length tx - 13) tx) ty) eqn:E; [|discriminate].
+  apply String.eqb_eq in E. rewrite E. reflexivity.
+Qed.
+
+(* what the cast rule accepts: a declared vector is only ever cast to its own type *)
+Lemma vt_cast_spec_lemma : forall G M ty y t,
+  vt_cast G M ty (CVar y) = [] -> var_vtype G M y = Some t -> is_vector_type (nospace ty) = true -> nospace ty = t.
+Proof.
+  intros G M ty y t H Hy Hv. unfold vt_cast in H. rewrite Hy, Hv in H. simpl in H.
+  destruct (String.eqb (nospace ty) t) eqn:E; [apply String.eqb_eq; exact E|discriminate].
+Qed.
+
+(* the 2-D column of an enum-typed method: member of the raw element type (accepted), and the same body with the
+   member re-declared vector<vector<int>> and the push wrapped in static_cast<std::vector<int>> (both rules fire) *)
+Definition body_2d (push : cexp) : block :=
+  Blk [] (SCons (SFor "i_obj1" (CVar "jets0")
+           (Blk [mkdecl "std::vector<MyNS::Color>" "ntuple5" None]
+              (SCons (SPush "ntuple5" None (CMeth (CVar "i_obj1") true "color" CNil))
+              (SCons (SPush "_col13" None push) SNil)))) SNil).
+Definition p_vec2d_good : program :=
+  mkprog [ {| m_type := "std::vector<std::vector<MyNS::Color>>"; m_name := "_col13" |} ] (body_2d (CVar "ntuple5")).
+Definition p_vec2d_cast : program :=
+  mkprog [ {| m_type := "std::vector<std::vector<int>>"; m_name := "_col13" |} ]
+         (body_2d (CCast "std::vector<int>" (CVar "ntuple5"))).
+Definition p_vec2d_push : program :=
+  mkprog [ {| m_type := "std::vector<std::vector<int> >"; m_name := "_col13" |} ] (body_2d (CVar "ntuple5")).
+
+Lemma vtypes_examples_lemma :
+  vtypes_ok p_vec2d_good = true /\ types_ok [] p_vec2d_good = true /\
+  vtype_errs p_vec2d_cast = ["vector-cast:ntuple5"] /\ types_ok [] p_vec2d_cast = true /\
+  vtype_errs p_vec2d_push = ["push-element-type:_col13"].
+Proof. vm_compute. repeat split. Qed.
+
 Lemma good_lemma :
   well_scoped p_good = true /\ unique_decls p_good = true /\ types_ok [] p_good = true /\
   run_event p_good (initial_members (p_members p_good)) ev0
